@@ -23,6 +23,8 @@ func checkC19(c *Ctx) {
 	c.Rule("C19-R5", "the JS drawCell call is dominated by the Dirty test and paired with SetDirty(false); palette table for the 16 basic colours equals the xterm values")
 	c.Rule("C19-R9", "whoever clears the page outside a draw (Suspend) is followed by an invalidation of every cell before the next draw (Resume), or the page stays blank until Sync")
 	c.Expect("C19-R9", 1)
+	c.Rule("C19-R12", "the wasm screen's post helper waits for room in the queue only in a select that also receives from quit: after Fini nobody reads the queue, and SetSize or a page callback would never return")
+	c.Expect("C19-R12", 1)
 	c.Rule("C19-R11", "the page keeps one node per column: painting a wide rune empties the nodes of the columns it covers (otherwise their old content stays on the page beside it and the row grows)")
 	c.Expect("C19-R11", 1)
 	c.Rule("C19-R10", "HideCursor moves the requested cursor position off-screen")
@@ -170,6 +172,7 @@ func checkC19(c *Ctx) {
 		}
 		c.Check(ok, "C19-R9", "Suspend/Resume:page-repainted", "-", detail)
 		checkHideCursor(c, p, "C19-R10", "wScreen")
+		checkPostHasQuitAlternative(c, p, "C19-R12", "wScreen")
 	}
 	if fini := p.Fn("tcell:(*wScreen).Fini"); fini != nil {
 		var target *ssa.Function
